@@ -52,7 +52,7 @@ def server_api_action(r, drv: Driver, retired, p=gv.SMALL):
     if x < 0.25:
         return ("bind_response", mid, r.choice([None, b"", b"srv"]), code, md, dm, _ctl(r))
     if x < 0.45:
-        name = r.choice([None, "1.2.3", NOTICE_OID]) if r.random() < 0.8 else NOTICE_OID
+        name = r.choice([None, "1.2.3", NOTICE_OID, "1.3.6.1.4.1.1466", "20036", "1.3.6.1", NOTICE_OID + "0"]) if r.random() < 0.8 else NOTICE_OID
         return ("extended_response", mid, name, r.choice([None, b"v"]), r.choice([0, 2, 52]), md, dm, _ctl(r))
     if x < 0.6:
         return ("entry", mid, "cn=e", (("cn", (b"e",)),), _ctl(r))
@@ -81,7 +81,7 @@ def crafted_for_client(r, drv: Driver, retired):
         "SearchResultEntry": ("cn=e", (("cn", (b"v",)),)),
         "SearchResultReference": (("ldap://y/",),),
         "SearchResultDone": ((r.choice([0, 4]), "", "", None),),
-        "ExtendedResponse": ((0, "", "", None), r.choice([None, "1.2.3"]), None),
+        "ExtendedResponse": ((0, "", "", None), r.choice([None, "1.2.3", "1.3.6.1.4.1.1466", "20036", "6.1.4"]), None),
     }[kind]
     out = rfc4511.encode((kind, mid, body, ()))
     if r.random() < 0.2:  # two messages in one delivery
@@ -133,6 +133,23 @@ class Pair:
         gone = before - set(drv.model.ip)
         (self.retired_c if side == "c" else self.retired_s).extend(sorted(gone))
         return vio
+
+
+def long_lived_prelude(pair: "Pair", n: int = 300):
+    """Brings both sessions of a pair past message id 256 through n answered extended operations (ids beyond CPython's
+    small-int cache; a long-lived connection)."""
+    vio = []
+    for _ in range(n):
+        vio += pair.do("c", ("extended", "1.2.3", None, None))
+        data, pair.c2s = pair.c2s, b""
+        vio += pair.do("s", ("receive", data))
+        mid = max(pair.s.model.ip) if pair.s.model.ip else 1
+        vio += pair.do("s", ("extended_response", mid, None, None, 0, None, None, None))
+        data, pair.s2c = pair.s2c, b""
+        vio += pair.do("c", ("receive", data))
+        if vio:
+            break
+    return vio
 
 
 def random_step(r: random.Random, pair: Pair) -> t.Tuple[str, tuple]:
